@@ -625,7 +625,7 @@ Proof.
 Qed.
 
 (* the glue computes (exact rationals, vm_compute); every value below was replayed on the
-   real library (see .work/prover_C16_TIE.md) *)
+   real library (see notes/prover_C16_TIE.md) *)
 Example glue_runs_on_rationals :
   let px0 := make_matrix_probe_x NumQ 3 1%Q 2 (-2)%Q (Some 1000000%Q) (ArgOne (1, 2, 3)%Q) (ArgOne (0, 0, 1)%Q)
                (ArgOne 1%Z) (ArgEach [false; true; false; false; false; true]) None None
